@@ -6,7 +6,7 @@
     [holds]: the property itself, judged on what the implementation did, against the
              list reference of Repro/DocSpec.v (never against the model). *)
 From Coq Require Import String.
-From Verif Require Import Lib.Base Lib.Dec Lib.PyStr Gen.PyChars Repro.Doc Repro.DocSpec.
+From Verif Require Import Lib.Base Lib.Dec Lib.PyStr Gen.PyChars Repro.Doc Repro.DocInv Repro.DocSpec.
 
 (** * Literals written by the harness *)
 
@@ -85,6 +85,14 @@ Definition class_ok (i : ilit) : bool :=
 
 (** * Correspondence *)
 
+(** the hypothesis of the theorems of Props/C05.v: a document the implementation parsed, none of
+    whose paragraphs repeats a field name, is [doc_ok] (and so is every later state, by theorem) *)
+Definition no_dup_class (items : list ilit) : bool :=
+  forallb (fun i => match i with IP dup _ => negb dup | IO _ _ => true end) items.
+
+Definition hyp_ok (items : list ilit) (d : doc) : bool :=
+  if no_dup_class items then doc_ok d else true.
+
 Definition model_read (d : doc) : list (list (str * result str)) := map read_para (paras d).
 
 Fixpoint agree_steps (d : doc) (ops : list op) (steps : list steplit) : bool :=
@@ -107,6 +115,7 @@ Definition agree (c : case) : bool :=
   | Run text items init ops steps =>
       let d := map dec_item items in
       forallb class_ok items
+      && hyp_ok items d
       && str_eqb (dump d) (dec_text text)
       && read_eqb' (model_read d) (dec_read init)
       && agree_steps d (map dec_op ops) steps
